@@ -195,6 +195,11 @@ impl FixtureDatabase {
             }
         }
 
+        // The index has its final shape now. A query that ran while it was changing may have
+        // cached an answer computed from a half-updated index under the version set above:
+        // move on once more, so that no such answer is served from here on.
+        self.invalidate_cycle_cache();
+
         debug!("Analysis complete for {:?}", file_path);
 
         // Periodically evict cache entries to prevent unbounded memory growth
